@@ -4,6 +4,12 @@ import json, os
 V = os.path.dirname(os.path.dirname(os.path.abspath(__file__)))
 CHECKS = {
  # id: (engine, technique, level text, level note, design ref)
+ "C02": ("E1-shape", "bounded-exhaustive enumeration of constructed-type shapes executed on the real compiler vs. structural reference",
+         "Every SEQUENCE/SET/CHOICE with n components (quick n<=2, thorough n<=3 full and n=4 over a reduced alphabet) over a 14-type component alphabet x {required, OPTIONAL, DEFAULT} x marker at every position, long lists n=5..12 with one deviating position, all container chains over {SEQUENCE, SET, CHOICE, SEQUENCE OF, SET OF} to depth 4, OF/primitive assignments, all under 4 tagging defaults x EXTENSIBILITY IMPLIED (5.9 M modules thorough, 148 k quick) is compiled and the syn projection compared structurally with the model: one field/variant per component in source order, Rust type class, Option/default-fn/Box, set markers, hoisted anonymous items exactly once, nothing extra, Box exactly on reference cycles (graph check).",
+         "Model comparator (harness/src/model.rs) and syn projection trusted; component types outside the alphabet and n>4 full products not covered (small-scope hypothesis: index logic sees first/mid/last positions).", "§4 C02"),
+ "C05": ("E1-shape", "bounded-exhaustive enumeration of extension layouts executed on the real compiler vs. structural reference",
+         "kind{SEQUENCE,SET,CHOICE,ENUMERATED} x root size 0..4 x marker x every addition layout of length <=6 (plain component or [[ ]] group of 1..3, <=3 groups, with/without version numbers) x top-level/nested x EXTENSIBILITY IMPLIED x 2 tagging defaults (297 k modules thorough) compiled; non_exhaustive <=> marker or IMPLIED, extension_addition exactly at index >= r, one Option<Group> extension_addition_group member per group with exactly the grouped components in order.",
+         "Same comparator as C02 in extension mode. CHOICE groups with version numbers are rejected by the parser (Err) and are counted as unsupported, not judged. Second extension marker / second root not in the grammar.", "§4 C05"),
  "C03": ("E1-shape", "complete enumeration of the finite tagging configuration space executed on the real compiler vs. X.680 31.2.7/25.3/29.2 reference",
          "The whole product default{none,EXPLICIT,IMPLICIT,AUTOMATIC} x keyword x class x number{0,5,300} x 10 positions (incl. nesting depth 2-3 and OF elements) x 6 tagged type kinds (7 k points) and the automatic-tagging predicate (192 points) is compiled point by point and the tag/automatic_tags attributes compared with the X.680 rule; thorough adds all ordered pairs of occurrences at different positions (82 k modules) to show independence. Complete, not sampled.",
          "Attribute-level observation (syn); what rasn-derive makes of an attribute on the wire is trusted. For CHOICE/open-typed components and delegate newtypes over a referenced CHOICE/ANY only (class, number) are compared because rasn applies explicit tagging to those itself.", "§4 C03"),
